@@ -816,7 +816,31 @@ def layout_probe(prop, tier, seed, rep, vals_line=None):
     return cov
 
 
-EXTRA_STEPS = {"C16": words_probe, "C15": policy_probe, "C03": layout_probe, "C13": layout_probe}
+def cycles_check(out, rep, prop):
+    """`cycle <position> dropped=<n> leaked_bytes=<d>` lines of the containers probe: a two-object cycle routed through every
+    container position must be dropped exactly once per object and fully released by one collection."""
+    lines = [l for l in out.splitlines() if l.startswith("cycle ")]
+    bad = [l for l in lines if not re.search(r" dropped=2 leaked_bytes=0$", l)]
+    if bad:
+        rep.violation("impl-vs-property", ["# " + x for x in bad[:20]],
+                      "a garbage cycle routed through a container position was not reclaimed exactly once and completely: %s" % bad[0],
+                      True, signature="containers-cycle")
+    return len(lines), len(bad)
+
+
+def layout_and_cycles_probe(prop, tier, seed, rep, vals_line=None):
+    cov = layout_probe(prop, tier, seed, rep, vals_line)
+    ok, log = cargo_build(F_ALL)
+    if ok:
+        rc, out = sh([corr.harness_bin(F_ALL), "containers"], timeout=600)
+        n, nbad = cycles_check(out, rep, prop)
+        cov["cycle_positions"] = n
+        cov["cycle_position_failures"] = nbad
+        cov["extra_evaluations"] = cov.get("extra_evaluations", 0) + n
+    return cov
+
+
+EXTRA_STEPS = {"C16": words_probe, "C15": policy_probe, "C03": layout_and_cycles_probe, "C13": layout_probe}
 
 
 def simple_probe_check(prop, tier, seed, rep, runner):
@@ -847,6 +871,8 @@ def run_C17(prop, tier, seed, rep):
             raise RuntimeError("cargo build failed: " + log[-500:])
         rc, out = sh([corr.harness_bin(feat, release), "containers"], timeout=600)
         lines = [l for l in out.splitlines() if l.startswith("shape ")]
+        ncyc, _ = cycles_check(out, rep, prop)
+        cases += ncyc
         if rc != 0 or "containers done" not in out:
             rep.violation("impl-vs-property", ["# containers probe crashed rc=%s" % rc, "# last: %s" % (lines[-1] if lines else "-")],
                           "a built-in Trace/Finalize impl made the container probe crash (rc=%s) after `%s`" % (rc, lines[-1] if lines else "-"),
@@ -930,7 +956,9 @@ def derive_drop_probe(rep):
     open(os.path.join(d, "src", "lib.rs"), "w").write(
         "use rust_cc::*;\n#[cfg(feature = \"bad\")]\n#[derive(Trace, Finalize)]\npub struct Bad { a: Cc<u32> }\n"
         "#[cfg(feature = \"bad\")]\nimpl Drop for Bad { fn drop(&mut self) {} }\n"
-        "#[derive(Trace, Finalize)]\n#[rust_cc(unsafe_no_drop)]\npub struct Good { a: Cc<u32> }\nimpl Drop for Good { fn drop(&mut self) {} }\n")
+        "#[derive(Trace, Finalize)]\n#[rust_cc(unsafe_no_drop)]\npub struct Good { a: Cc<u32> }\nimpl Drop for Good { fn drop(&mut self) {} }\n"
+        "#[derive(Trace, Finalize)]\n#[rust_cc(unsafe_no_drop)]\n#[allow(dead_code)]\n#[doc = \"d\"]\npub struct Good2 { a: Cc<u32> }\nimpl Drop for Good2 { fn drop(&mut self) {} }\n"
+        "#[derive(Trace, Finalize)]\n#[allow(dead_code)]\n#[rust_cc(unsafe_no_drop)]\npub enum Good3 { A(Cc<u32>), B }\nimpl Drop for Good3 { fn drop(&mut self) {} }\n")
     rc_good, out_good = sh(["cargo", "build", "--offline"], cwd=d, timeout=1200)
     rc_bad, out_bad = sh(["cargo", "build", "--offline", "--features", "bad"], cwd=d, timeout=1200)
     res = {"drop_conflict_rejected": rc_bad != 0 and "E0119" in out_bad, "unsafe_no_drop_accepted": rc_good == 0}
